@@ -86,6 +86,7 @@ SPLIT_MAX = 128  # longest prefix a route can be split into (IPv6)
 
 # IP address validation constants
 EXTENDED_COMMUNITY_TARGET_PARTS = 2  # Target extended community has 2 parts (ASN:value)
+EXTENDED_COMMUNITY_SIZE = 8  # octets of an extended community on the wire (RFC 4360 section 2)
 LARGE_COMMUNITY_PARTS = 3  # <global administrator>:<local data 1>:<local data 2>
 
 
@@ -593,9 +594,9 @@ def _encode(command: str, components: list[int], parts: list[str]) -> tuple[byte
 
 
 def _extended_community_hex(value: str) -> ExtendedCommunity:
-    # we could raise if the length is not 8 bytes (16 chars)
-    if len(value) % 2:
-        raise ValueError('invalid extended community {}'.format(value))
+    # an extended community is eight octets (RFC 4360 2): 0x and sixteen hexadecimal digits
+    if len(value) != 2 + 2 * EXTENDED_COMMUNITY_SIZE:
+        raise ValueError('invalid extended community {} - 0x followed by 16 hexadecimal digits'.format(value))
     raw = b''.join(bytes([int(value[_ : _ + 2], 16)]) for _ in range(2, len(value), 2))
     return cast(ExtendedCommunity, ExtendedCommunity.unpack_attribute(raw, None))
 
